@@ -11,35 +11,71 @@ namespace DarkluaModel.C03
 def replay_identity_full : Prop :=
   ∀ (s : List UInt8) (ts : List Tok), Tiling s ts → (run init (ops ts)).out = s
 
-/-- The tokens of `return t[u[1]]` (finding F7). -/
+/-- The tokens of `return t[1 --[[c]]]` (finding F7c), as the parser records them: every
+content refers to its byte range of the source. -/
+def f7cTokens : List Tok :=
+  [ ⟨[], [114, 101, 116, 117, 114, 110], some 1, true, [⟨false, [32]⟩], some (0, 6)⟩,   -- `return` + " "
+    ⟨[], [116], some 1, true, [], some (7, 8)⟩,    -- t
+    ⟨[], [91], some 1, true, [], some (8, 9)⟩,     -- [
+    ⟨[], [49], some 1, true, [⟨false, [32]⟩, ⟨true, [45, 45, 91, 91, 99, 93, 93]⟩], some (9, 10)⟩,  -- 1 + " --[[c]]"
+    ⟨[], [93], some 1, true, [], some (18, 19)⟩,   -- ]
+    ⟨[], [], some 1, true, [], some (19, 19)⟩ ]    -- end of file
+
+def f7cSource : List UInt8 :=
+  [114, 101, 116, 117, 114, 110, 32, 116, 91, 49, 32, 45, 45, 91, 91, 99, 93, 93, 93]
+
+theorem f7c_tiling : Tiling f7cSource f7cTokens := ⟨by decide, by decide, by decide⟩
+
+/-- The model writes `return t[1 --[[c]] ]` (a space between the comment and the bracket). -/
+theorem f7c_output : (run init (ops f7cTokens)).out =
+    [114, 101, 116, 117, 114, 110, 32, 116, 91, 49, 32, 45, 45, 91, 91, 99, 93, 93, 32, 93] := by decide
+
+/-- The full statement is still false of the code: `needs_space` looks at the last character
+written, also when it is the end of an original comment directly followed, in the source, by
+the token (finding F7c; an existing snapshot test of the repository records this spacing, so the
+repair of F7 was limited to token-after-token adjacency). -/
+theorem replay_identity_full_false : ¬ replay_identity_full := by
+  intro h
+  have := h f7cSource f7cTokens f7c_tiling
+  rw [f7c_output] at this
+  exact absurd this (by decide)
+
+/-- The tokens of `return t[u[1]]` (finding F7, fixed by /repo 'needs_space between original
+adjacent tokens'): regression. -/
 def f7Tokens : List Tok :=
-  [ ⟨[], [114, 101, 116, 117, 114, 110], some 1, true, [⟨false, [32]⟩]⟩,   -- `return` + " "
-    ⟨[], [116], some 1, true, []⟩,    -- t
-    ⟨[], [91], some 1, true, []⟩,     -- [
-    ⟨[], [117], some 1, true, []⟩,    -- u
-    ⟨[], [91], some 1, true, []⟩,     -- [
-    ⟨[], [49], some 1, true, []⟩,     -- 1
-    ⟨[], [93], some 1, true, []⟩,     -- ]
-    ⟨[], [93], some 1, true, []⟩,     -- ]
-    ⟨[], [], some 1, true, []⟩ ]      -- end of file
+  [ ⟨[], [114, 101, 116, 117, 114, 110], some 1, true, [⟨false, [32]⟩], some (0, 6)⟩,
+    ⟨[], [116], some 1, true, [], some (7, 8)⟩,    -- t
+    ⟨[], [91], some 1, true, [], some (8, 9)⟩,     -- [
+    ⟨[], [117], some 1, true, [], some (9, 10)⟩,   -- u
+    ⟨[], [91], some 1, true, [], some (10, 11)⟩,   -- [
+    ⟨[], [49], some 1, true, [], some (11, 12)⟩,   -- 1
+    ⟨[], [93], some 1, true, [], some (12, 13)⟩,   -- ]
+    ⟨[], [93], some 1, true, [], some (13, 14)⟩,   -- ]
+    ⟨[], [], some 1, true, [], some (14, 14)⟩ ]    -- end of file
 
 def f7Source : List UInt8 := [114, 101, 116, 117, 114, 110, 32, 116, 91, 117, 91, 49, 93, 93]
 
-theorem f7_tiling : Tiling f7Source f7Tokens := ⟨by decide, by decide, by decide⟩
+/-- regression (F7): the two closing brackets are adjacent original tokens; no space any more -/
+example : Tiling f7Source f7Tokens ∧ H3 f7Tokens ∧ (run init (ops f7Tokens)).out = f7Source :=
+  ⟨⟨by decide, by decide, by decide⟩, by decide, by decide⟩
 
-/-- The model writes `return t[u[1] ]` (a space between the two closing brackets). -/
-theorem f7_output : (run init (ops f7Tokens)).out =
+/-- regression (F7b): `return 1 ..2` — `..` and `2` are adjacent original tokens -/
+example : (run init (ops [
+    ⟨[], [114, 101, 116, 117, 114, 110], some 1, true, [⟨false, [32]⟩], some (0, 6)⟩,
+    ⟨[], [49], some 1, true, [⟨false, [32]⟩], some (7, 8)⟩,
+    ⟨[], [46, 46], some 1, true, [], some (9, 11)⟩,
+    ⟨[], [50], some 1, true, [], some (11, 12)⟩])).out =
+    [114, 101, 116, 117, 114, 110, 32, 49, 32, 46, 46, 50] := by decide
+
+/-- the same tokens without their source ranges (as after `replace_referenced_tokens`, or
+created by a rule): the space rule still applies — `t[u[1] ]` -/
+example : (run init (ops (f7Tokens.map fun t => { t with ref := none }))).out =
     [114, 101, 116, 117, 114, 110, 32, 116, 91, 117, 91, 49, 93, 32, 93] := by decide
 
-/-- The full statement is false of the code as it is: `needs_space` is applied to original
-tokens too. -/
-theorem replay_identity_full_false : ¬ replay_identity_full := by
-  intro h
-  have := h f7Source f7Tokens f7_tiling
-  rw [f7_output] at this
-  exact absurd this (by decide)
-
-/-- Partial theorem: inside H₃ the replay of a tiling is the source, byte for byte; no space,
+/-- Partial theorem: inside H₃ — which now only excludes a space-checked content that does NOT
+directly follow, in the original code, the original token written just before it and with
+which the space rule fires (in a tiling of parsed tokens: a content right after a comment ending
+in `]`, or tokens that lost their source range) — the replay of a tiling is the source, byte for byte; no space,
 no padding newline and no `uncomment` newline is inserted, and the line counter ends at the
 number of lines of the source. No bound on the size of `s` or `ts`. -/
 theorem replay_identity_partial (s : List UInt8) (ts : List Tok) (ht : Tiling s ts) (h : H3 ts) :
@@ -55,10 +91,10 @@ theorem replay_identity_partial (s : List UInt8) (ts : List Tok) (ht : Tiling s 
   unfold Inv at hinv
   rw [hinv, ← hout, State.out, cnl_reverse]
 
-example : Tiling [120, 61, 49, 10] [⟨[], [120], some 1, true, []⟩, ⟨[], [61], some 1, true, []⟩,
-    ⟨[], [49], some 1, true, [⟨false, [10]⟩]⟩, ⟨[], [], some 2, true, []⟩] ∧
-    H3 [⟨[], [120], some 1, true, []⟩, ⟨[], [61], some 1, true, []⟩,
-    ⟨[], [49], some 1, true, [⟨false, [10]⟩]⟩, ⟨[], [], some 2, true, []⟩] :=
+example : Tiling [120, 61, 49, 10] [⟨[], [120], some 1, true, [], none⟩, ⟨[], [61], some 1, true, [], none⟩,
+    ⟨[], [49], some 1, true, [⟨false, [10]⟩], none⟩, ⟨[], [], some 2, true, [], none⟩] ∧
+    H3 [⟨[], [120], some 1, true, [], none⟩, ⟨[], [61], some 1, true, [], none⟩,
+    ⟨[], [49], some 1, true, [⟨false, [10]⟩], none⟩, ⟨[], [], some 2, true, [], none⟩] :=
   ⟨⟨by decide, by decide, by decide⟩, by decide⟩
 
 /-- On *every* tiling (H₃ or not) the writer inserts no newline of its own: no line padding,
@@ -73,6 +109,6 @@ theorem tiling_no_inserted_newline (s : List UInt8) (ts : List Tok) (ht : Tiling
   show countNewLines [] + _ = _
   simp [cnl_nil]
 
-example : Tiling f7Source f7Tokens ∧ ¬ H3 f7Tokens := ⟨f7_tiling, by decide⟩
+example : Tiling f7cSource f7cTokens ∧ ¬ H3 f7cTokens := ⟨f7c_tiling, by decide⟩
 
 end DarkluaModel.C03
